@@ -73,8 +73,9 @@ def leaf(tid, kind):
                 und = np.zeros_like(und)
         a[und] = np.nan
     elif ch == 0:
-        top = 250 if dt == "u1" else 30000
+        top = 255 if dt == "u1" else 32767  # up to the type's maximum (a sum of four must not wrap)
         a = ((base * 7 + tid * 31) % top + 1).astype(dt)
+        a[240:, 240:] = top  # a block of maxima: four of them average to the maximum
         a[und] = 0
     elif ch == 4:
         a = np.stack([(base + tid * 17) % 256, (base // 3 + tid * 29) % 256, (base // 7 + tid) % 256, np.full_like(base, 255)], axis=-1).astype("u1")
@@ -156,12 +157,12 @@ def population_positions(pop, start):
     return [(start, k % side, k // side) for k in pop]
 
 
-def serial_case(d, start, pop, kind, use_filter, part, check_range=False, prop_sig=""):
+def serial_case(d, start, pop, kind, use_filter, part, check_range=False, prop_sig="", entry="api"):
     from toasty.merge import cascade_images, averaging_merger
     from toasty.pyramid import PyramidIO
 
     fmt, dt, ch = KINDS[kind]
-    cfg = {"start": start, "population": list(pop), "kind": kind, "filter": use_filter}
+    cfg = {"start": start, "population": list(pop), "kind": kind, "filter": use_filter, "entry": entry}
     positions = population_positions(pop, start)
     part.case(nontrivial=0 < len(pop) < 4**start)
 
@@ -185,7 +186,22 @@ def serial_case(d, start, pop, kind, use_filter, part, check_range=False, prop_s
     try:
         with quiet():
             write_leaves(pio, leaves, fmt)
-            cascade_images(pio, start, averaging_merger, parallel=1, tile_filter=tf)
+            if entry == "cli":
+                # the `toasty cascade` command (format guessed from the files on disk)
+                from toasty import cli
+
+                cli.entrypoint(["cascade", "--parallelism", "1", "--start", str(start), root])
+            elif entry == "builder":
+                from toasty.builder import Builder
+
+                b = Builder(pio)
+                b.imgset.tile_levels = start
+                b.cascade(parallel=1)
+            else:
+                cascade_images(pio, start, averaging_merger, parallel=1, tile_filter=tf)
+    except SystemExit as e:
+        bad("cascade-exits", "exit code %r" % (e.code,))
+        return
     except Exception as e:
         bad("cascade-raises:%s" % type(e).__name__, repr(e))
         return
@@ -269,8 +285,9 @@ def _serial_job(job):
     part = Part()
     prop_range = job[0]
     with scratch("c02") as d:
-        for (start, pop, kind, flt) in job[1]:
-            serial_case(d, start, pop, kind, flt, part, check_range=prop_range)
+        for item in job[1]:
+            (start, pop, kind, flt) = item[:4]
+            serial_case(d, start, pop, kind, flt, part, check_range=prop_range, entry=item[4] if len(item) > 4 else "api")
         part.sample({"start": job[1][0][0], "population": list(job[1][0][1]), "kind": job[1][0][2], "filter": job[1][0][3]})
     return part
 
@@ -417,6 +434,13 @@ def build_jobs(tier, seed, kinds, check_range, e1_kinds):
             for pop in populations(tier, 3):
                 cases.append((3, pop, kind, False))
                 cases.append((3, pop, kind, True))
+    # other entry points that reach the same merger: the command line and Builder.cascade
+    for kind in kinds:
+        if kind.startswith("fits-F32") and kind != "fits-F32":
+            continue
+        for pop in [(0, 5, 10, 15), (0, 1, 4, 5, 10), tuple(range(16))]:
+            cases.append((2, pop, kind, False, "cli"))
+            cases.append((2, pop, kind, False, "builder"))
     cases = rng_order(cases, seed)
     n = 40
     jobs = [("serial", check_range, cases[i::n]) for i in range(n) if cases[i::n]]
@@ -466,7 +490,7 @@ def replay(payload):
         return 1 if viol else 0
     part = Part()
     with scratch("c02r") as d:
-        serial_case(d, r["start"], tuple(r["population"]), r["kind"], r["filter"], part, check_range=True)
+        serial_case(d, r["start"], tuple(r["population"]), r["kind"], r["filter"], part, check_range=True, entry=r.get("entry", "api"))
     for sig, (detail, _) in part.violations.items():
         print("REPLAY-FAIL", sig, detail[:400])
     return 1 if part.violations else 0
